@@ -213,7 +213,9 @@ class ResolvePortRefs(ElabPass):
             self.fail(f"Invalid PortRef group: {group}")
 
         # Nothing "unconnected". Find the instance one with the lowest (alphabetical) name.
-        ordered = sorted(group, key=lambda p: p.inst.name)
+        # Break ties between ports of one instance by port name: the order of `group` itself
+        # follows hash-set iteration, and differs from run to run.
+        ordered = sorted(group, key=lambda p: (p.inst.name, p.portname))
         return ordered[0]
 
     def create_source(self, module: Module, group: List[PortRef]) -> PortType:
